@@ -477,8 +477,8 @@ open GlueVerif.C18Combo.Axes
 def AOk (ndim : Nat → Nat) (s : AState) : Prop :=
   s.crashed = false ∧
   match s.ref with
-  | none => s.x = none ∧ s.y = none ∧ s.xw = none ∧ s.yw = none ∧ s.layers = []
-  | some r => r ∈ s.layers ∧ ∃ i j, s.x = some i ∧ s.y = some j ∧ s.xw = some i ∧ s.yw = some j ∧
+  | none => s.x = none ∧ s.y = none ∧ s.xw = none ∧ s.yw = none ∧ ∀ d ∈ s.layers, ndim d < 2
+  | some r => r ∈ s.layers ∧ 2 ≤ ndim r ∧ ∃ i j, s.x = some i ∧ s.y = some j ∧ s.xw = some i ∧ s.yw = some j ∧
       i ≠ j ∧ i < ndim r ∧ j < ndim r
 
 theorem alt_ne (n i : Nat) (hn : 2 ≤ n) : alt n i ≠ i := by
@@ -500,12 +500,12 @@ theorem onXW_ok (ndim : Nat → Nat) (r : Nat) (s : AState) (i j : Nat) (hn : 2 
   · subst hij
     refine ⟨⟨rfl, ?_⟩, ?_⟩
     · simp only [onXW, if_true, Option.isSome_some]
-      exact ⟨hl, j, alt (ndim r) j, rfl, rfl, rfl, rfl, (alt_ne _ _ hn).symm, hi, alt_lt _ _ hn⟩
+      exact ⟨hl, hn, j, alt (ndim r) j, rfl, rfl, rfl, rfl, (alt_ne _ _ hn).symm, hi, alt_lt _ _ hn⟩
     · simp only [onXW]
   · have hne : ¬ (some j = some i) := fun e => hij (Option.some.inj e)
     refine ⟨⟨rfl, ?_⟩, ?_⟩
     · simp only [onXW, hne, if_false, Option.isSome_some, if_true]
-      exact ⟨hl, i, j, rfl, rfl, rfl, rfl, fun e => hij e.symm, hi, hj⟩
+      exact ⟨hl, hn, i, j, rfl, rfl, rfl, rfl, fun e => hij e.symm, hi, hj⟩
     · simp only [onXW]
 
 theorem onYW_ok (ndim : Nat → Nat) (r : Nat) (s : AState) (i j : Nat) (hn : 2 ≤ ndim r)
@@ -519,11 +519,11 @@ theorem onYW_ok (ndim : Nat → Nat) (r : Nat) (s : AState) (i j : Nat) (hn : 2 
   · subst hij
     refine ⟨rfl, ?_⟩
     simp only [onYW, if_true, Option.isSome_some]
-    exact ⟨hl, alt (ndim r) i, i, rfl, rfl, rfl, rfl, alt_ne _ _ hn, alt_lt _ _ hn, hj⟩
+    exact ⟨hl, hn, alt (ndim r) i, i, rfl, rfl, rfl, rfl, alt_ne _ _ hn, alt_lt _ _ hn, hj⟩
   · have hne : ¬ (some i = some j) := fun e => hij (Option.some.inj e)
     refine ⟨rfl, ?_⟩
     simp only [onYW, hne, if_false, Option.isSome_some, if_true]
-    exact ⟨hl, i, j, rfl, rfl, rfl, rfl, hij, hi, hj⟩
+    exact ⟨hl, hn, i, j, rfl, rfl, rfl, rfl, hij, hi, hj⟩
 
 theorem onXW_fields (n : Nat) (s : AState) :
     (onXW n s).ref = s.ref ∧ (onXW n s).layers = s.layers ∧ (onXW n s).crashed = s.crashed := by
@@ -541,60 +541,85 @@ theorem newRef_ok (ndim : Nat → Nat) (d : Nat) (s : AState) (hn : 2 ≤ ndim d
   obtain ⟨hr1, hl1, _⟩ := hf
   simp only at hr1 hl1
   rw [hr1] at hok
-  obtain ⟨_, i, j, _, _, hxw, hyw, _, hi, hj⟩ := hok
+  obtain ⟨_, _, i, j, _, _, hxw, hyw, _, hi, hj⟩ := hok
   exact onYW_ok ndim d s1 i j hn hc1 hr1 (hl1 ▸ hl) hxw hyw hi hj
+
+/-- a dataset of two or more dimensions becomes the reference data: no crash. -/
+theorem setNewRef_ok (ndim : Nat → Nat) (d : Nat) (s : AState) (hn : 2 ≤ ndim d) (hc : s.crashed = false)
+    (hl : d ∈ s.layers) : AOk ndim (setNewRef ndim d s) := by
+  have hlt : ¬ ndim d < 2 := by omega
+  simp only [setNewRef, hlt, if_false]
+  exact newRef_ok ndim d s hn hc hl
+
+/-- the reference-data picker of the repaired code offers exactly the layer datasets of two or more
+dimensions. -/
+theorem mem_refChoices (ndim : Nat → Nat) (ls : List Nat) (d : Nat) :
+    d ∈ refChoices 2 ndim ls ↔ d ∈ ls ∧ 2 ≤ ndim d := by
+  simp [refChoices, List.mem_filter]
+
+theorem refChoices_nil (ndim : Nat → Nat) (ls : List Nat) (h : refChoices 2 ndim ls = []) :
+    ∀ d ∈ ls, ndim d < 2 := by
+  intro d hd
+  have hnot : ¬ (d ∈ ls ∧ 2 ≤ ndim d) := fun hh =>
+    absurd ((mem_refChoices ndim ls d).mpr hh) (by rw [h]; exact List.not_mem_nil)
+  have : ¬ 2 ≤ ndim d := fun h2 => hnot ⟨hd, h2⟩
+  omega
 
 /-- what `layersChanged` needs: the attributes are consistent with the reference data (which may
 have just lost its layer). -/
 def AttsOk (ndim : Nat → Nat) (s : AState) : Prop :=
   match s.ref with
   | none => s.x = none ∧ s.y = none ∧ s.xw = none ∧ s.yw = none
-  | some r => ∃ i j, s.x = some i ∧ s.y = some j ∧ s.xw = some i ∧ s.yw = some j ∧
+  | some r => 2 ≤ ndim r ∧ ∃ i j, s.x = some i ∧ s.y = some j ∧ s.xw = some i ∧ s.yw = some j ∧
       i ≠ j ∧ i < ndim r ∧ j < ndim r
 
-theorem layersChanged_ok (ndim : Nat → Nat) (hn : ∀ d, 2 ≤ ndim d) (s : AState) (hc : s.crashed = false)
+theorem layersChanged_ok (ndim : Nat → Nat) (s : AState) (hc : s.crashed = false)
     (h : AttsOk ndim s) : AOk ndim (layersChanged ndim s) := by
   obtain ⟨layers, ref, x, y, xw, yw, err, crashed⟩ := s
   simp only at hc
   subst hc
   unfold AttsOk at h
-  cases ref with
-  | none =>
-    simp only at h
-    obtain ⟨rfl, rfl, rfl, rfl⟩ := h
-    cases layers with
-    | nil => exact ⟨rfl, rfl, rfl, rfl, rfl, rfl⟩
-    | cons d ds =>
-      have hlt : ¬ ndim d < 2 := by have := hn d; omega
-      simp only [layersChanged, List.head?_cons, hlt, if_false]
-      exact newRef_ok ndim d _ (hn d) rfl (List.mem_cons_self ..)
-  | some r =>
-    simp only at h
-    by_cases hcr : r ∈ layers
-    · have : layers.contains r = true := by simpa using hcr
-      simp only [layersChanged, this, if_true]
-      exact ⟨rfl, hcr, h⟩
-    · have hcr' : layers.contains r = false := by simpa using hcr
-      cases layers with
-      | nil =>
-        simp only [layersChanged, hcr', Bool.false_eq_true, if_false, List.head?_nil, noRef]
-        exact ⟨rfl, rfl, rfl, rfl, rfl, rfl⟩
-      | cons d ds =>
-        have hlt : ¬ ndim d < 2 := by have := hn d; omega
-        simp only [layersChanged, hcr', Bool.false_eq_true, if_false, List.head?_cons, hlt]
-        exact newRef_ok ndim d _ (hn d) rfl (List.mem_cons_self ..)
+  unfold layersChanged layersChangedWith
+  simp only
+  cases hch : refChoices 2 ndim layers with
+  | nil =>
+    have hall := refChoices_nil ndim layers hch
+    cases ref with
+    | none =>
+      simp only at h
+      obtain ⟨rfl, rfl, rfl, rfl⟩ := h
+      simp only [List.head?_nil]
+      exact ⟨rfl, rfl, rfl, rfl, rfl, hall⟩
+    | some r =>
+      simp only [List.contains_nil, Bool.false_eq_true, if_false, List.head?_nil, noRef]
+      exact ⟨rfl, rfl, rfl, rfl, rfl, hall⟩
+  | cons d ds =>
+    have hd : d ∈ layers ∧ 2 ≤ ndim d := (mem_refChoices ndim layers d).mp (by rw [hch]; exact List.mem_cons_self ..)
+    cases ref with
+    | none =>
+      simp only [List.head?_cons]
+      exact setNewRef_ok ndim d _ hd.2 rfl hd.1
+    | some r =>
+      simp only at h
+      by_cases hcr : (d :: ds).contains r = true
+      · simp only [hcr, if_true]
+        have hr : r ∈ layers ∧ 2 ≤ ndim r := (mem_refChoices ndim layers r).mp (by rw [hch]; simpa using hcr)
+        exact ⟨rfl, hr.1, h⟩
+      · simp only [hcr, List.head?_cons]
+        exact setNewRef_ok ndim d _ hd.2 rfl hd.1
 
-theorem astep_ok (ndim : Nat → Nat) (hn : ∀ d, 2 ≤ ndim d) (s : AState) (op : AOp) (h : AOk ndim s) :
+theorem astep_ok (ndim : Nat → Nat) (s : AState) (op : AOp) (h : AOk ndim s) :
     AOk ndim (astep ndim s op) := by
   obtain ⟨layers, ref, x, y, xw, yw, err, crashed⟩ := s
   obtain ⟨hc, hm⟩ := h
   simp only at hc hm
   subst hc
+  unfold astep
   cases ref with
   | none =>
     simp only at hm
-    obtain ⟨rfl, rfl, rfl, rfl, rfl⟩ := hm
-    have hsame : ∀ e, AOk ndim ⟨[], none, none, none, none, none, e, false⟩ := fun e => ⟨rfl, rfl, rfl, rfl, rfl, rfl⟩
+    obtain ⟨rfl, rfl, rfl, rfl, hall⟩ := hm
+    have hsame : ∀ e, AOk ndim ⟨layers, none, none, none, none, none, e, false⟩ := fun e => ⟨rfl, rfl, rfl, rfl, rfl, hall⟩
     cases op with
     | setX i => exact hsame false
     | setY i => exact hsame false
@@ -602,66 +627,69 @@ theorem astep_ok (ndim : Nat → Nat) (hn : ∀ d, 2 ≤ ndim d) (s : AState) (o
     | setYW i => exact hsame true
     | setRef d => exact hsame true
     | addLayer d =>
-      simp only [astep, Bool.false_eq_true, if_false, List.contains_nil, List.nil_append]
-      exact layersChanged_ok ndim hn _ rfl ⟨rfl, rfl, rfl, rfl⟩
+      simp only [astepWith, Bool.false_eq_true, if_false]
+      split
+      · exact hsame false
+      · exact layersChanged_ok ndim _ rfl ⟨rfl, rfl, rfl, rfl⟩
     | removeLayer d =>
-      simp only [astep, Bool.false_eq_true, if_false, List.erase_nil]
-      exact layersChanged_ok ndim hn _ rfl ⟨rfl, rfl, rfl, rfl⟩
+      simp only [astepWith, Bool.false_eq_true, if_false]
+      exact layersChanged_ok ndim _ rfl ⟨rfl, rfl, rfl, rfl⟩
   | some r =>
     simp only at hm
-    obtain ⟨hl, i, j, rfl, rfl, rfl, rfl, hij, hi, hj⟩ := hm
+    obtain ⟨hl, hnr, i, j, rfl, rfl, rfl, rfl, hij, hi, hj⟩ := hm
     have hsame : ∀ e, AOk ndim ⟨layers, some r, some i, some j, some i, some j, e, false⟩ := fun e =>
-      ⟨rfl, hl, i, j, rfl, rfl, rfl, rfl, hij, hi, hj⟩
+      ⟨rfl, hl, hnr, i, j, rfl, rfl, rfl, rfl, hij, hi, hj⟩
     have hatts : ∀ ls e, AttsOk ndim ⟨ls, some r, some i, some j, some i, some j, e, false⟩ := fun _ _ =>
-      ⟨i, j, rfl, rfl, rfl, rfl, hij, hi, hj⟩
+      ⟨hnr, i, j, rfl, rfl, rfl, rfl, hij, hi, hj⟩
     cases op with
     | setX a =>
-      simp only [astep, Bool.false_eq_true, if_false]
+      simp only [astepWith, Bool.false_eq_true, if_false]
       split
-      · exact (onXW_ok ndim r _ a j (hn r) rfl rfl hl rfl rfl ‹_› hj).1
+      · exact (onXW_ok ndim r _ a j hnr rfl rfl hl rfl rfl ‹_› hj).1
       · exact hsame false
     | setY a =>
-      simp only [astep, Bool.false_eq_true, if_false]
+      simp only [astepWith, Bool.false_eq_true, if_false]
       split
-      · exact onYW_ok ndim r _ i a (hn r) rfl rfl hl rfl rfl hi ‹_›
+      · exact onYW_ok ndim r _ i a hnr rfl rfl hl rfl rfl hi ‹_›
       · exact hsame false
     | setXW a =>
-      simp only [astep, Bool.false_eq_true, if_false]
+      simp only [astepWith, Bool.false_eq_true, if_false]
       split
-      · exact (onXW_ok ndim r _ a j (hn r) rfl rfl hl rfl rfl ‹_› hj).1
+      · exact (onXW_ok ndim r _ a j hnr rfl rfl hl rfl rfl ‹_› hj).1
       · exact hsame true
     | setYW a =>
-      simp only [astep, Bool.false_eq_true, if_false]
+      simp only [astepWith, Bool.false_eq_true, if_false]
       split
-      · exact onYW_ok ndim r _ i a (hn r) rfl rfl hl rfl rfl hi ‹_›
+      · exact onYW_ok ndim r _ i a hnr rfl rfl hl rfl rfl hi ‹_›
       · exact hsame true
     | setRef d =>
-      simp only [astep, Bool.false_eq_true, if_false]
-      by_cases hcd : layers.contains d = true
+      simp only [astepWith, Bool.false_eq_true, if_false]
+      by_cases hcd : (refChoices 2 ndim layers).contains d = true
       · simp only [hcd, Bool.not_true, Bool.false_eq_true, if_false]
+        have hd : d ∈ layers ∧ 2 ≤ ndim d := (mem_refChoices ndim layers d).mp (by simpa using hcd)
         by_cases hdr : d = r
         · simp only [hdr, if_true]; exact hsame false
-        · have hlt : ¬ ndim d < 2 := by have := hn d; omega
-          simp only [hdr, if_false, hlt]
-          exact newRef_ok ndim d _ (hn d) rfl (by simpa using hcd)
+        · simp only [hdr, if_false]
+          exact setNewRef_ok ndim d _ hd.2 rfl hd.1
       · simp only [hcd, Bool.not_false, if_true]
         exact hsame true
     | addLayer d =>
-      simp only [astep, Bool.false_eq_true, if_false]
+      simp only [astepWith, Bool.false_eq_true, if_false]
       split
       · exact hsame false
-      · exact layersChanged_ok ndim hn _ rfl (hatts _ _)
+      · exact layersChanged_ok ndim _ rfl (hatts _ _)
     | removeLayer d =>
-      simp only [astep, Bool.false_eq_true, if_false]
-      exact layersChanged_ok ndim hn _ rfl (hatts _ _)
+      simp only [astepWith, Bool.false_eq_true, if_false]
+      exact layersChanged_ok ndim _ rfl (hatts _ _)
 
-theorem arun_ok (ndim : Nat → Nat) (hn : ∀ d, 2 ≤ ndim d) (ops : List AOp) :
+theorem arun_ok (ndim : Nat → Nat) (ops : List AOp) :
     ∀ s : AState, AOk ndim s → AOk ndim (arun ndim s ops) := by
   induction ops with
   | nil => intro s h; exact h
-  | cons op ops ih => intro s h; exact ih _ (astep_ok ndim hn s op h)
+  | cons op ops ih => intro s h; exact ih _ (astep_ok ndim s op h)
 
-theorem ainit_ok (ndim : Nat → Nat) : AOk ndim ainit := ⟨rfl, rfl, rfl, rfl, rfl, rfl⟩
+theorem ainit_ok (ndim : Nat → Nat) : AOk ndim ainit :=
+  ⟨rfl, rfl, rfl, rfl, rfl, fun _ h => absurd h List.not_mem_nil⟩
 
 theorem axesOk_of_AOk (ndim : Nat → Nat) (s : AState) (h : AOk ndim s) : axesOk ndim s = true := by
   obtain ⟨hc, hm⟩ := h
@@ -670,11 +698,12 @@ theorem axesOk_of_AOk (ndim : Nat → Nat) (s : AState) (h : AOk ndim s) : axesO
   | none =>
     simp only [hr] at hm
     obtain ⟨hx, hy, hxw, hyw, hl⟩ := hm
-    simp [hc, hx, hy, hxw, hyw, hl]
+    simp [hc, hx, hy, hxw, hyw]
+    exact hl
   | some r =>
     simp only [hr] at hm
-    obtain ⟨hl, i, j, hx, hy, hxw, hyw, hij, hi, hj⟩ := hm
-    simp [hc, hx, hy, hxw, hyw, hl, hij, hi, hj]
+    obtain ⟨hl, hn, i, j, hx, hy, hxw, hyw, hij, hi, hj⟩ := hm
+    simp [hc, hx, hy, hxw, hyw, hl, hn, hij, hi, hj]
 
 end Axes
 
